@@ -47,7 +47,20 @@ Example detect_interleaved_markers :
   detect (map bs ["Dockerfile"; "Makefile"; "docker-compose.yml"]%string) = map bs ["docker"; "make"]%string.
 Proof. vm_compute. reflexivity. Qed.
 
+(* "a deterministic function of its listing": the analysis reads the entries in file-name order (os.ReadDir sorts), so two
+   directories holding the same names give the same project types in the same order, in whatever order the entries were
+   created, are stored on disk or are enumerated *)
+Theorem analysis_is_a_function_of_the_names : forall names names',
+  Permutation names names' -> analyze_names names = analyze_names names'.
+Proof. exact analyze_names_order_free. Qed.
+
+Theorem listing_in_name_order_is_analysed_as_is : forall listing,
+  Sorted.StronglySorted name_le listing -> analyze_names listing = detect listing.
+Proof. exact sorted_listing_as_is. Qed.
+
 Print Assumptions boost_same_candidates.
+Print Assumptions analysis_is_a_function_of_the_names.
+Print Assumptions listing_in_name_order_is_analysed_as_is.
 Print Assumptions candidates_ignore_boosts.
 Print Assumptions boost_local.
 Print Assumptions detect_reports_each_type_once.
